@@ -1,25 +1,690 @@
 package main
 
+// Atomic-step protocols (thread-modular reasoning, Owicki–Gries style with a
+// global invariant over shared + ghost state and rely conditions).
+//
+// For each participating real function, before every atomic access to a
+// protocol location the shared locations and the protocol's global ghost
+// variables are havocked (arbitrary interference by any number of other
+// threads), the invariant and the relies are assumed; the atomic operation and
+// the ghost updates attached to (operation kind, location) execute as one
+// step; the invariant (and the relies other threads depend on) are asserted.
+
 import (
+	"fmt"
 	"go/token"
 	"go/types"
+	"sort"
+	"strings"
 
 	"golang.org/x/tools/go/ssa"
 )
 
-// Placeholders for the concurrency forms (filled in later).
+type protoLine struct{ kw, rest, where string }
+
+type ghostAssign struct {
+	Name  string
+	Index *SExpr // name[index] = value (sets / maps)
+	Value *SExpr
+}
+
+type onClause struct {
+	Kind    string // load store add swap cas send close any
+	Loc     string // field path relative to self, e.g. "curr" ; or channel field
+	In      []string
+	Assigns []ghostAssign
+	Where   string
+}
+
+type tagged struct {
+	In []string
+	Cl *Clause
+}
 
 type Protocol struct {
 	Name, Pkg, On, Where string
-	Lines                []protoLine
+	Props     []string
+	SelfName  string
+	SelfType  string
+	Shared    []string
+	Ghost     []BoundVar
+	Local     []BoundVar
+	Inv       []*Clause
+	AssumeInv []*Clause
+	Rely      []tagged
+	Threads   []string
+	Single    map[string]bool
+	OnCl      []onClause
+	Posts     []tagged
+	Entry     []tagged // assumptions at thread entry
+	LoopInv   map[string]map[int][]*Clause
+	Readers   []string // functions allowed to read shared locations non-atomically? (none by default)
+	Init      []string // constructor functions (may allocate the object)
+	Counters  [][2]string // ghost counters: global = sum over threads of local
 }
 
-type protoLine struct{ kw, rest, where string }
+func parseIn(rest string) ([]string, string) {
+	rest = strings.TrimSpace(rest)
+	if strings.HasPrefix(rest, "in ") {
+		i := strings.Index(rest, ":")
+		if i > 0 {
+			var fs []string
+			for _, f := range strings.Split(rest[3:i], ",") {
+				fs = append(fs, strings.TrimSpace(f))
+			}
+			return fs, strings.TrimSpace(rest[i+1:])
+		}
+	}
+	return nil, rest
+}
 
 func (p *Protocol) parseLine(kw, rest, where string) error {
-	p.Lines = append(p.Lines, protoLine{kw, rest, where})
+	switch kw {
+	case "property":
+		for _, x := range strings.Split(rest, ",") {
+			p.Props = append(p.Props, strings.TrimSpace(x))
+		}
+	case "shared":
+		for _, x := range strings.Split(rest, ",") {
+			p.Shared = append(p.Shared, strings.TrimSpace(x))
+		}
+	case "ghost":
+		p.Ghost = append(p.Ghost, parseParams(rest)...)
+	case "threads":
+		for _, x := range splitTop(rest) {
+			p.Threads = append(p.Threads, strings.TrimSpace(x))
+		}
+	case "inv":
+		cl, err := parseLabelled(rest, where)
+		if err != nil {
+			return err
+		}
+		p.Inv = append(p.Inv, cl)
+	case "assume":
+		in, r := parseIn(rest)
+		cl, err := parseLabelled(r, where)
+		if err != nil {
+			return err
+		}
+		if in == nil {
+			p.AssumeInv = append(p.AssumeInv, cl)
+		} else {
+			p.Entry = append(p.Entry, tagged{in, cl})
+		}
+	case "rely":
+		in, r := parseIn(rest)
+		cl, err := parseLabelled(r, where)
+		if err != nil {
+			return err
+		}
+		p.Rely = append(p.Rely, tagged{in, cl})
+	case "ensures":
+		in, r := parseIn(rest)
+		cl, err := parseLabelled(r, where)
+		if err != nil {
+			return err
+		}
+		p.Posts = append(p.Posts, tagged{in, cl})
+	case "on":
+		// on <kind> <loc> [in F,G]: a = e; b[i] = e
+		i := strings.Index(rest, ":")
+		if i < 0 {
+			return fmt.Errorf("%s: on <kind> <loc>: assignments", where)
+		}
+		head := strings.Fields(rest[:i])
+		if len(head) < 2 {
+			return fmt.Errorf("%s: on <kind> <loc>", where)
+		}
+		oc := onClause{Kind: head[0], Loc: head[1], Where: where}
+		if len(head) >= 4 && head[2] == "in" {
+			for _, f := range strings.Split(strings.Join(head[3:], " "), ",") {
+				oc.In = append(oc.In, strings.TrimSpace(f))
+			}
+		}
+		for _, a := range strings.Split(rest[i+1:], ";") {
+			a = strings.TrimSpace(a)
+			if a == "" {
+				continue
+			}
+			eq := strings.Index(a, "=")
+			for eq >= 0 && eq+1 < len(a) && (a[eq+1] == '=' || (eq > 0 && strings.ContainsRune("!<>=", rune(a[eq-1])))) {
+				n := strings.Index(a[eq+2:], "=")
+				if n < 0 {
+					eq = -1
+				} else {
+					eq = eq + 2 + n
+				}
+			}
+			if eq < 0 {
+				return fmt.Errorf("%s: ghost assignment expected: %s", where, a)
+			}
+			lhs := strings.TrimSpace(a[:eq])
+			val, err := parseSpec(a[eq+1:])
+			if err != nil {
+				return fmt.Errorf("%s: %v", where, err)
+			}
+			ga := ghostAssign{Value: val}
+			if b := strings.Index(lhs, "["); b >= 0 {
+				ga.Name = strings.TrimSpace(lhs[:b])
+				ix, err := parseSpec(strings.TrimSuffix(lhs[b+1:], "]"))
+				if err != nil {
+					return fmt.Errorf("%s: %v", where, err)
+				}
+				ga.Index = ix
+			} else {
+				ga.Name = lhs
+			}
+			oc.Assigns = append(oc.Assigns, ga)
+		}
+		p.OnCl = append(p.OnCl, oc)
+	case "loop":
+		// loop <func> <n> invariant <expr>
+		f := strings.Fields(rest)
+		if len(f) < 4 || f[2] != "invariant" {
+			return fmt.Errorf("%s: loop <func> <n> invariant <expr>", where)
+		}
+		var n int
+		fmt.Sscanf(f[1], "%d", &n)
+		body := strings.TrimSpace(rest[strings.Index(rest, "invariant")+len("invariant"):])
+		cl, err := parseLabelled(body, where)
+		if err != nil {
+			return err
+		}
+		if p.LoopInv == nil {
+			p.LoopInv = map[string]map[int][]*Clause{}
+		}
+		if p.LoopInv[f[0]] == nil {
+			p.LoopInv[f[0]] = map[int][]*Clause{}
+		}
+		p.LoopInv[f[0]][n] = append(p.LoopInv[f[0]][n], cl)
+	case "counter":
+		f := strings.Fields(rest)
+		if len(f) != 3 || f[1] != "by" {
+			return fmt.Errorf("%s: counter <global> by <local>", where)
+		}
+		p.Counters = append(p.Counters, [2]string{f[0], f[2]})
+	case "self":
+		f := strings.Fields(rest)
+		if len(f) < 2 {
+			return fmt.Errorf("%s: self <name> <type>", where)
+		}
+		p.SelfName, p.SelfType = f[0], strings.Join(f[1:], " ")
+	case "local":
+		p.Local = append(p.Local, parseParams(rest)...)
+	case "single":
+		if p.Single == nil {
+			p.Single = map[string]bool{}
+		}
+		p.Single[strings.TrimSpace(rest)] = true
+	case "init":
+		for _, x := range splitTop(rest) {
+			p.Init = append(p.Init, strings.TrimSpace(x))
+		}
+	default:
+		return fmt.Errorf("%s: unexpected clause %q in protocol", where, kw)
+	}
 	return nil
 }
+
+func inList(l []string, s string) bool {
+	if len(l) == 0 {
+		return true
+	}
+	for _, x := range l {
+		if x == s {
+			return true
+		}
+	}
+	return false
+}
+
+// protoRun is the per-verification state of a protocol.
+type protoRun struct {
+	p      *Protocol
+	fn     *ssa.Function
+	rel    string
+	self   PtrV
+	selfT  types.Type
+	snap   *State // state after this thread's previous step (for relies)
+	pre    *State // state just before the current step
+	active bool
+}
+
+func (e *Engine) ghostSort(t string) *Sort {
+	switch strings.TrimSpace(t) {
+	case "bool":
+		return SBool
+	case "set":
+		return ArrSort(SInt, SBool)
+	case "f64":
+		return SF64
+	}
+	return SInt
+}
+
+func (pr *protoRun) env(e *Engine, st *State, old *State) *SpecEnv {
+	vc := e.cur
+	env := vc.specEnv(st)
+	env.old = old
+	env.local = e.localLookup(st, pr.fn)
+	return env
+}
+
+// sharedLoc reports whether pointer p denotes shared location number k.
+func (pr *protoRun) sharedIndex(e *Engine, p PtrV) int {
+	if p.Cell > 0 || p.Global != nil || p.Ref.S != pr.self.Ref.S {
+		return -1
+	}
+	suffix, _ := e.pathSuffix(p)
+	for i, s := range pr.p.Shared {
+		if "."+s == suffix {
+			return i
+		}
+	}
+	return -1
+}
+
+func (pr *protoRun) havocShared(e *Engine, st *State) {
+	for _, s := range pr.p.Shared {
+		// type of the field path
+		cur := pr.selfT
+		key := e.rootKey(pr.selfT)
+		for _, f := range strings.Split(s, ".") {
+			_, ft, ok := fieldByName(cur, f)
+			if !ok {
+				panic(specErr{"protocol " + pr.p.Name + ": no field " + f})
+			}
+			key += "." + f
+			cur = ft
+		}
+		for _, ks := range e.leafKeys(key, cur, 0) {
+			st.havocHeapSlot(ks, pr.self.Ref)
+		}
+	}
+	for _, g := range pr.p.Ghost {
+		st.ghost[g.Name] = e.ctx.Fresh("gh_"+g.Name, e.ghostSort(g.Type))
+	}
+}
+
+// interfere: arbitrary steps of other threads.
+func (pr *protoRun) interfere(e *Engine, st *State) {
+	pr.havocShared(e, st)
+	env := pr.env(e, st, pr.snap)
+	for _, c := range pr.p.Inv {
+		st.assume(e.evalSpecBool(env, c.Expr))
+	}
+	for _, c := range pr.p.AssumeInv {
+		st.assume(e.evalSpecBool(env, c.Expr))
+	}
+	for _, r := range pr.p.Rely {
+		if inList(r.In, pr.rel) {
+			st.assume(e.evalSpecBool(env, r.Cl.Expr))
+		}
+	}
+	pr.assumeCounters(e, st)
+}
+
+// assumeCounters: a ghost counter is the sum of the per-thread contributions;
+// the contributions of the other threads are non-negative.
+func (pr *protoRun) assumeCounters(e *Engine, st *State) {
+	for _, c := range pr.p.Counters {
+		g, ok1 := st.ghost[c[0]].(Term)
+		l, ok2 := st.ghost[c[1]].(Term)
+		if !ok1 || !ok2 {
+			panic(specErr{"protocol " + pr.p.Name + ": counter " + c[0] + " by " + c[1] + " needs a ghost and a local"})
+		}
+		st.assume(Ge(g, l))
+	}
+}
+
+func (e *Engine) newProtoRun(st *State, fn *ssa.Function, c *Contract) *protoRun {
+	ps := e.specs[pkgOf(fn).Path()]
+	p := ps.Protos[c.Proto]
+	if p == nil {
+		panic(specErr{"unknown protocol " + c.Proto})
+	}
+	_, rel := e.relName(fn)
+	pr := &protoRun{p: p, fn: fn, rel: rel}
+	if len(fn.Params) == 0 {
+		panic(specErr{"protocol thread function without receiver"})
+	}
+	self, ok := st.env[fn.Params[0]]
+	_ = self
+	_ = ok
+	return pr
+}
+
+// bind attaches the protocol to the receiver after parameters exist.
+func (pr *protoRun) bind(e *Engine, st *State, recv Value) {
+	p, ok := recv.(PtrV)
+	if !ok {
+		panic(specErr{"protocol self must be a pointer receiver"})
+	}
+	pr.self = p
+	pr.selfT = p.Elem
+	for _, g := range pr.p.Ghost {
+		st.ghost[g.Name] = e.ctx.Fresh("gh_"+g.Name, e.ghostSort(g.Type))
+	}
+	for _, l := range pr.p.Local {
+		st.ghost[l.Name] = ZeroOf(e.ghostSort(l.Type))
+	}
+	st.assume(Neq(p.Ref, IntLit(0)))
+	env := pr.env(e, st, nil)
+	for _, c := range pr.p.Inv {
+		st.assume(e.evalSpecBool(env, c.Expr))
+	}
+	for _, c := range pr.p.AssumeInv {
+		st.assume(e.evalSpecBool(env, c.Expr))
+	}
+	for _, t := range pr.p.Entry {
+		if inList(t.In, pr.rel) {
+			st.assume(e.evalSpecBool(env, t.Cl.Expr))
+		}
+	}
+	pr.assumeCounters(e, st)
+	pr.snap = st.clone()
+	pr.active = true
+}
+
+func (pr *protoRun) beforeAtomic(e *Engine, st *State, loc PtrV, kind string, pos token.Pos) {
+	if !pr.active || pr.sharedIndex(e, loc) < 0 {
+		return
+	}
+	pr.interfere(e, st)
+	pr.pre = st.clone()
+}
+
+func (pr *protoRun) afterAtomic(e *Engine, st *State, loc PtrV, kind string, old, nv Term, pos token.Pos) {
+	if !pr.active {
+		return
+	}
+	k := pr.sharedIndex(e, loc)
+	if k < 0 {
+		return
+	}
+	locName := pr.p.Shared[k]
+	pr.step(e, st, kind, locName, old, nv, pos)
+}
+
+// step applies the ghost updates of (kind, loc) and checks invariant + guarantees.
+func (pr *protoRun) step(e *Engine, st *State, kind, locName string, old, nv Term, pos token.Pos) {
+	env := pr.env(e, st, pr.pre)
+	env.vars["before"] = old
+	env.vars["after"] = nv
+	for _, oc := range pr.p.OnCl {
+		if (oc.Kind != kind && oc.Kind != "any") || oc.Loc != locName || !inList(oc.In, pr.rel) {
+			continue
+		}
+		// simultaneous assignment: evaluate all right-hand sides first
+		type upd struct {
+			name string
+			v    Value
+		}
+		var ups []upd
+		for _, a := range oc.Assigns {
+			v := e.evalSpec(env, a.Value)
+			if a.Index != nil {
+				cur, ok := st.ghost[a.Name].(Term)
+				if !ok {
+					panic(specErr{"ghost " + a.Name + " is not declared"})
+				}
+				v = Store(cur, e.evalSpecTerm(env, a.Index), v.(Term))
+			}
+			ups = append(ups, upd{a.Name, v})
+		}
+		for _, u := range ups {
+			if _, ok := st.ghost[u.name]; !ok {
+				panic(specErr{"ghost " + u.name + " is not declared"})
+			}
+			if t, ok := u.v.(Term); ok {
+				u.v = e.ctx.Define("gh_"+u.name, t)
+			}
+			st.ghost[u.name] = u.v
+		}
+	}
+	env = pr.env(e, st, pr.pre)
+	tag := fmt.Sprintf("step[%s %s]", kind, locName)
+	for _, c := range pr.p.Counters {
+		g1, l1 := st.ghost[c[0]].(Term), st.ghost[c[1]].(Term)
+		g0, l0 := pr.pre.ghost[c[0]].(Term), pr.pre.ghost[c[1]].(Term)
+		e.oblige(st, "proto", fmt.Sprintf("%s.%s.counter_consistent.%s", pr.p.Name, tag, c[0]), Eq(Sub(g1, g0), Sub(l1, l0)), pos)
+	}
+	for i, c := range pr.p.Inv {
+		e.oblige(st, "proto", fmt.Sprintf("%s.%s.preserves_inv.%s", pr.p.Name, tag, clauseName(c, i)), e.evalSpecBool(env, c.Expr), pos)
+	}
+	for i, r := range pr.p.Rely {
+		// this step must respect what other threads rely on: relies of other
+		// thread kinds, and of the own kind unless it is declared single.
+		checks := false
+		if len(r.In) == 0 {
+			checks = true
+		}
+		for _, k := range r.In {
+			if k != pr.rel || !pr.p.Single[k] {
+				checks = true
+			}
+		}
+		if !checks || pr.mentionsLocal(r.Cl.Expr) {
+			// relies that mention a thread-local ghost are structural facts about
+			// the counters (justified by `single` / `counter`), not step guarantees
+			continue
+		}
+		genv := pr.env(e, st, pr.pre)
+		// the rely is about thread-local ghosts of the *other* thread: those are
+		// not changed by this step; evaluate with this thread's locals hidden.
+		e.oblige(st, "proto", fmt.Sprintf("%s.%s.guarantees.%s", pr.p.Name, tag, clauseName(r.Cl, i)), e.evalSpecBool(genv, r.Cl.Expr), pos)
+	}
+	pr.snap = st.clone()
+}
+
+func (pr *protoRun) mentionsLocal(x *SExpr) bool {
+	if x == nil {
+		return false
+	}
+	if x.Op == "ident" {
+		for _, l := range pr.p.Local {
+			if l.Name == x.Name {
+				return true
+			}
+		}
+	}
+	for _, a := range x.Args {
+		if pr.mentionsLocal(a) {
+			return true
+		}
+	}
+	return false
+}
+
+func (pr *protoRun) onSend(e *Engine, st *State, ch Term, pos token.Pos) {
+	// a channel send on a protocol channel is a step of kind "send"
+	for k, s := range pr.p.Shared {
+		_ = k
+		if v, ok := pr.chanOf(e, st, s); ok && v.S == ch.S {
+			pr.interfere(e, st)
+			pr.pre = st.clone()
+			pr.step(e, st, "send", s, TFalse, TFalse, pos)
+			return
+		}
+	}
+	e.oblige(st, "safe", "send_on_closed_channel", Not(e.chanGet(st, ch, "closed")), pos)
+}
+
+func (pr *protoRun) chanOf(e *Engine, st *State, s string) (Term, bool) {
+	cur := pr.selfT
+	p := pr.self
+	for _, f := range strings.Split(s, ".") {
+		idx, ft, ok := fieldByName(cur, f)
+		if !ok || len(idx) != 1 {
+			return Term{}, false
+		}
+		p = p.field(idx[0], ft)
+		cur = ft
+	}
+	if _, ok := cur.Underlying().(*types.Chan); !ok {
+		return Term{}, false
+	}
+	v, ok := e.load(st, p, cur).(Term)
+	return v, ok
+}
+
+func (pr *protoRun) atReturn(e *Engine, st *State, pos token.Pos) {
+	if !pr.active {
+		return
+	}
+	env := pr.env(e, st, e.cur.entry)
+	env.hasRes = true
+	sig := pr.fn.Signature
+	if sig.Results().Len() == 1 {
+		env.result = wrapTyped(st.retVal, sig.Results().At(0).Type())
+	} else {
+		env.result = st.retVal
+	}
+	env.local = nil
+	for _, c := range pr.p.Counters {
+		e.oblige(st, "proto", fmt.Sprintf("%s.exit.%s_released", pr.p.Name, c[1]), Eq(st.ghost[c[1]].(Term), IntLit(0)), pos)
+	}
+	for i, t := range pr.p.Posts {
+		if inList(t.In, pr.rel) {
+			e.oblige(st, "proto", fmt.Sprintf("%s.post.%s", pr.p.Name, clauseName(t.Cl, i)), e.evalSpecBool(env, t.Cl.Expr), pos)
+		}
+	}
+}
+
+// ---------------------------------------------------------------------------
+// verification of the thread functions of a protocol, and the access-closure scan
+
+func (e *Engine) verifyProtocols(prop string) []*FuncResult {
+	var out []*FuncResult
+	var pkgs []string
+	for p := range e.specs {
+		pkgs = append(pkgs, p)
+	}
+	sort.Strings(pkgs)
+	for _, pk := range pkgs {
+		ps := e.specs[pk]
+		var names []string
+		for n := range ps.Protos {
+			names = append(names, n)
+		}
+		sort.Strings(names)
+		for _, n := range names {
+			p := ps.Protos[n]
+			if !contains(p.Props, prop) {
+				continue
+			}
+			for _, th := range p.Threads {
+				fn := e.findFunc(pk, th)
+				if fn == nil {
+					out = append(out, &FuncResult{Func: pkgBase(pk) + "." + th + " [protocol " + n + "]", Undecided: "thread function not found"})
+					continue
+				}
+				c := &Contract{Pkg: pk, Func: th, Props: p.Props, Proto: n, LoopInv: map[int][]*Clause{}, Unroll: map[int]int{}, NoFrame: true}
+				if li, ok := p.LoopInv[th]; ok {
+					c.LoopInv = li
+				}
+				if real, ok := ps.Contracts[th]; ok {
+					c.Requires = real.Requires
+				}
+				e.protoContract[fn] = c
+				r := e.VerifyFunc(fn, c)
+				delete(e.protoContract, fn)
+				r.Func += " [protocol " + n + "]"
+				out = append(out, r)
+			}
+			if msg := e.accessClosed(pk, p); msg != "" {
+				ob := &Obligation{Kind: "proto", Clause: "access_closed", Name: pkgBase(pk) + "." + n + "/proto.access_closed", Props: p.Props, Func: "protocol " + n, Verdict: "refuted", Solver: "engine", Output: msg, Goal: "every write to a protocol location is an atomic operation inside a listed thread function; no plain access anywhere", Pos: p.Where}
+				e.engineObls = append(e.engineObls, ob)
+			} else {
+				ob := &Obligation{Kind: "proto", Clause: "access_closed", Name: pkgBase(pk) + "." + n + "/proto.access_closed", Props: p.Props, Func: "protocol " + n, Verdict: "discharged", Solver: "engine", Goal: "every write to a protocol location is an atomic operation inside a listed thread function; no plain access anywhere", Pos: p.Where}
+				e.engineObls = append(e.engineObls, ob)
+			}
+		}
+	}
+	return out
+}
+
+// accessClosed scans the package: every access to a shared field of the
+// protocol's type must go through an atomic operation; writes only inside the
+// listed thread functions.
+func (e *Engine) accessClosed(pk string, p *Protocol) string {
+	var tp *types.Package
+	for _, x := range e.allTypesPkgs {
+		if x.Path() == pk {
+			tp = x
+		}
+	}
+	selfT := e.resolveType(tp, p.SelfType)
+	pt, ok := selfT.Underlying().(*types.Pointer)
+	if !ok {
+		return "protocol self type is not a pointer"
+	}
+	structT := pt.Elem()
+	shared := map[string]bool{}
+	for _, s := range p.Shared {
+		shared[strings.Split(s, ".")[0]] = true
+	}
+	thread := map[string]bool{}
+	for _, t := range p.Threads {
+		thread[t] = true
+	}
+	var problems []string
+	for fn := range e.allFuncs {
+		if fn.Blocks == nil || pkgOf(fn) == nil || pkgOf(fn).Path() != pk {
+			continue
+		}
+		_, rel := e.relName(fn)
+		for _, b := range fn.Blocks {
+			for _, ins := range b.Instrs {
+				fa, ok := ins.(*ssa.FieldAddr)
+				if !ok {
+					continue
+				}
+				bt := fa.X.Type().Underlying().(*types.Pointer).Elem()
+				if !types.Identical(bt, structT) {
+					continue
+				}
+				fname := bt.Underlying().(*types.Struct).Field(fa.Field).Name()
+				if !shared[fname] {
+					continue
+				}
+				for _, ref := range *fa.Referrers() {
+					switch u := ref.(type) {
+					case *ssa.Call:
+						callee := u.Call.StaticCallee()
+						name := ""
+						if callee != nil {
+							name = callee.String()
+						}
+						isAtomic := strings.HasPrefix(name, "sync/atomic.") || strings.HasPrefix(name, "(*go.uber.org/atomic.")
+						if !isAtomic {
+							problems = append(problems, fmt.Sprintf("%s passes &%s.%s to %s", rel, p.SelfName, fname, name))
+							continue
+						}
+						writes := !(strings.Contains(name, "Load"))
+						if writes && !thread[rel] {
+							problems = append(problems, fmt.Sprintf("%s writes %s.%s (%s) but is not a thread function of protocol %s", rel, p.SelfName, fname, name, p.Name))
+						}
+					case *ssa.Store:
+						problems = append(problems, fmt.Sprintf("%s: plain store to %s.%s", rel, p.SelfName, fname))
+					case *ssa.UnOp:
+						problems = append(problems, fmt.Sprintf("%s: plain load of %s.%s", rel, p.SelfName, fname))
+					case *ssa.Defer, *ssa.Go:
+						problems = append(problems, fmt.Sprintf("%s: %s.%s escapes into defer/go", rel, p.SelfName, fname))
+					case *ssa.DebugRef:
+					default:
+						problems = append(problems, fmt.Sprintf("%s: unrecognised use of &%s.%s (%T)", rel, p.SelfName, fname, ref))
+					}
+				}
+			}
+		}
+	}
+	sort.Strings(problems)
+	return strings.Join(problems, "; ")
+}
+
+// ---------------------------------------------------------------------------
+// placeholders for the lock discipline (filled in by locks.go)
 
 type LockSpec struct {
 	Pkg, Where, Lock string
@@ -34,22 +699,14 @@ func (l *LockSpec) parseLine(kw, rest, where string) error {
 
 type Discipline struct{}
 
-func (e *Engine) newDiscipline(fn *ssa.Function) *Discipline { return &Discipline{} }
+func (e *Engine) newDiscipline(fn *ssa.Function) *Discipline                           { return &Discipline{} }
 func (d *Discipline) onAccess(e *Engine, st *State, p PtrV, write bool, pos token.Pos) {}
 func (d *Discipline) onMapWrite(e *Engine, st *State, m ssa.Value, pos token.Pos)      {}
 func (d *Discipline) onExternCall(e *Engine, st *State, m *types.Func, pos token.Pos)  {}
 func (d *Discipline) atReturn(e *Engine, st *State, pos token.Pos)                     {}
-
-type protoRun struct{}
-
-func (e *Engine) newProtoRun(st *State, fn *ssa.Function, c *Contract) *protoRun { return &protoRun{} }
-func (p *protoRun) onSend(e *Engine, st *State, ch Term, pos token.Pos)            {}
-func (p *protoRun) atReturn(e *Engine, st *State, pos token.Pos)                   {}
-
-func (e *Engine) specHeld(env *SpecEnv, args []*SExpr) Value { return TTrue }
-
-func (d *Discipline) onAcquire(e *Engine, st *State, p PtrV, key string, mode lockMode, pos token.Pos) {}
+func (d *Discipline) onAcquire(e *Engine, st *State, p PtrV, key string, mode lockMode, pos token.Pos) {
+}
 func (d *Discipline) onRelease(e *Engine, st *State, p PtrV, key string, mode, held lockMode, pos token.Pos) {
 }
-func (p *protoRun) beforeAtomic(e *Engine, st *State, loc PtrV, kind string, pos token.Pos)          {}
-func (p *protoRun) afterAtomic(e *Engine, st *State, loc PtrV, kind string, old, nv Term, pos token.Pos) {}
+
+func (e *Engine) specHeld(env *SpecEnv, args []*SExpr) Value { return TTrue }
